@@ -296,9 +296,10 @@ var pairs = [][]reqSpec{
 // upstream middleware writing constant headers, 4 on the default memory storage (nil Storage:
 // only lock / handler boundaries), 4 with a near key (see nearPairs; the second half of nearPairs
 // in odd blocks), 4 with a request the middleware must leave alone although its key header is
-// malformed or names a recorded key (safe method; exempted by a custom Next). The block number
-// shifts the response shapes.
-const dfs2Block = 44
+// malformed or names a recorded key (safe method; exempted by a custom Next), 4 duplicate pairs
+// whose KeepResponseHeaders list matches none / only Content-Type / all of the handler's headers
+// with empty-body and body-carrying first executions. The block number shifts the response shapes.
+const dfs2Block = 48
 
 func dfs2Scenario(i int) *scenario {
 	blk, j := i/dfs2Block, i%dfs2Block
@@ -326,6 +327,18 @@ func dfs2Scenario(i int) *scenario {
 			sc.Keep = keepList
 		}
 		sc.FailFirst = j == 3
+		return sc
+	case j >= 44:
+		j -= 44
+		// what is recorded is the status alone, status + body, status + one header, everything
+		first := [][]string{
+			{"nocontent", "bare-201", "empty-404", "cookies-empty-body", "redirect"},
+			{"plain", "handled-500", "json", "stream", "binary-comma"},
+			{"bare-201", "nocontent", "redirect", "empty-404", "api-cookie"},
+			{"multi", "cookies-empty-body", "empty-404", "redirect", "api-cookie"},
+		}[j]
+		sc := &scenario{Reqs: pairs[[]int{0, 1, 5, 0}[j]], ShapeBase: shapeIndex(first[blk%5]), Keep: [][]string{keepNone, keepNone, keepCT, keepEvery}[j]}
+		sc.FailFirst = blk%4 == 3 && j == 0
 		return sc
 	case j >= 40:
 		j -= 40
@@ -482,8 +495,13 @@ func genScenario(r *gen.Rand, n int) *scenario {
 		}
 	}
 	gen.Shuffle(r, sc.Reqs)
-	if r.Bool() {
+	switch r.Intn(6) {
+	case 0, 1:
 		sc.Keep = keepList
+	case 2:
+		sc.Keep = keepNone
+	case 3:
+		sc.Keep = gen.Pick(r, [][]string{keepCT, keepEvery})
 	}
 	sc.FailFirst = r.Chance(1, 3)
 	sc.Split = r.Chance(1, 4)
